@@ -346,6 +346,15 @@ def classify_error(msg):
 
 
 def check(c):
+    try:
+        _check(c)
+    finally:
+        c.repr_drift += U.DRIFT['pi_approximation_flagged_exact']
+        if U.DRIFT['pi_approximation_flagged_exact']:
+            c.notes.append('values flagged exact by fend although they hold its approximation of pi (flag dropped in to_hashmap_and_scale): %d' % U.DRIFT['pi_approximation_flagged_exact'])
+
+
+def _check(c):
     r = c.rng
     c.rule = ('random unit-expression trees, depth <= 5, over every table name usable in an expression plus sampled prefixed names; operators * / ^(rational literal) unary- + - to; '
               'about 60% of additions/conversions are generated with an operand of the same dimension class (same shape, other units), the rest freely; '
